@@ -34,10 +34,18 @@ type wsMessage struct {
 	Payload json.RawMessage `json:"payload"`
 }
 
-func openWS(api *apifu.API, features graphql.FeatureSet, proto string) *wsSession {
+// later: when not nil, Config.Features reads a box that holds `features` until the connection is
+// acknowledged and `*later` from then on — the environment changes while the connection lives
+func openWS(api *apifu.API, features graphql.FeatureSet, proto string, later *graphql.FeatureSet) *wsSession {
 	s := &wsSession{api: api, proto: proto}
+	var val interface{} = features
+	var box *featBox
+	if later != nil {
+		box = &featBox{now: features}
+		val = box
+	}
 	s.srv = httptest.NewServer(http.HandlerFunc(func(w http.ResponseWriter, r *http.Request) {
-		api.ServeGraphQLWS(w, r.WithContext(context.WithValue(r.Context(), featKey{}, features)))
+		api.ServeGraphQLWS(w, r.WithContext(context.WithValue(r.Context(), featKey{}, val)))
 	}))
 	dialer := &websocket.Dialer{HandshakeTimeout: 5 * time.Second, Subprotocols: []string{proto}}
 	conn, _, err := dialer.Dial("ws"+strings.TrimPrefix(s.srv.URL, "http"), nil)
@@ -48,6 +56,9 @@ func openWS(api *apifu.API, features graphql.FeatureSet, proto string) *wsSessio
 	s.send(map[string]interface{}{"type": "connection_init", "payload": map[string]interface{}{}})
 	if m := s.read(); m.Type != "connection_ack" {
 		panic("expected connection_ack, got " + m.Type)
+	}
+	if box != nil {
+		box.set(*later)
 	}
 	return s
 }
@@ -80,8 +91,69 @@ func (s *wsSession) close() {
 	s.srv.Close()
 }
 
+// a subscription: every data message until complete; the observation is the list of the events'
+// data (under the synthetic key "events") with all their errors, or the refusal
+func (s *side) runWSSubscription(query string, vars map[string]interface{}) *observation {
+	o := &observation{}
+	s.ws.n++
+	id := fmt.Sprintf("q%d", s.ws.n)
+	start, data := "start", "data"
+	if s.ws.proto == "graphql-transport-ws" {
+		start, data = "subscribe", "next"
+	}
+	s.log.take()
+	s.ws.send(map[string]interface{}{"id": id, "type": start, "payload": map[string]interface{}{"query": query, "variables": vars}})
+	var datas, errs []string
+	refused := false
+	for {
+		m := s.ws.read()
+		if m.Id != id {
+			panic(fmt.Sprintf("message for %s while waiting for %s", m.Id, id))
+		}
+		if m.Type == "complete" {
+			break
+		}
+		if m.Type != data {
+			panic("unexpected message type " + m.Type)
+		}
+		var p struct {
+			Data   json.RawMessage `json:"data"`
+			Errors []json.RawMessage `json:"errors"`
+		}
+		if err := json.Unmarshal(m.Payload, &p); err != nil {
+			panic(err)
+		}
+		if p.Data == nil {
+			refused = true
+			o.readResponse(m.Payload)
+			if es, ok := o.raw.get("errors"); ok {
+				for _, e := range es.vals {
+					o.verrs = append(o.verrs, errLocs(e))
+				}
+			}
+			continue
+		}
+		datas = append(datas, string(p.Data))
+		for _, e := range p.Errors {
+			errs = append(errs, string(e))
+		}
+	}
+	o.calls = s.log.take()
+	if !refused {
+		body := `{"data":{"events":[` + strings.Join(datas, ",") + `]}`
+		if len(errs) > 0 {
+			body += `,"errors":[` + strings.Join(errs, ",") + `]`
+		}
+		o.readResponse([]byte(body + "}"))
+	}
+	return o
+}
+
 // one start message; the data message's payload is the response
 func (s *side) runWS(query string, vars map[string]interface{}) *observation {
+	if strings.HasPrefix(query, "subscription") {
+		return s.runWSSubscription(query, vars)
+	}
 	o := &observation{}
 	s.ws.n++
 	id := fmt.Sprintf("q%d", s.ws.n)
